@@ -321,13 +321,189 @@ def go_test_overlay(ov, run, env, timeout=900):
     return rc, out
 
 
+# ----------------------------------------------------------------- successive handshakes over time
+
+IMPORTS_T = "From DtlsV Require Import Hs.C03Auth Hs.C03Run Hs.C03Time Hs.C03TimeRun."
+SITE_TIME = ("internal/handshakecrypto/crypto.go VerifyClientCert / VerifyServerCert (path validation with the roots, name "
+             "and clock of THIS handshake; callers flight12 flight4Parse / initializeCipherSuite, "
+             "protected_flight.go verifyPeerIdentity)")
+T_OFF = 1000000     # window bounds are relative to the start of the bubble and may be negative
+
+
+def time_required(scn, st):
+    """does the honest side's policy at this handshake demand path validation of the presented chain?"""
+    return (not st["skip"]) if scn["honest"] == "client" else st["policy"] in (3, 4)
+
+
+def time_windows(scn, st):
+    return [("leaf", st["leaf"])] + ([("intermediate", st["interw"])] if scn["inter"] else []) + [("root", st["root"])]
+
+
+def time_valid(scn, st, now=None):
+    """ground truth from how the sequence was built: does the chain validate at `now` against what the honest side is
+    configured with at this handshake?  Returns None or the reason why not."""
+    now = st["now"] if now is None else now
+    for nm, w in time_windows(scn, st):
+        if now < w["nb"]:
+            return "%s certificate not yet valid (NotBefore in %d s)" % (nm, w["nb"] - now)
+        if now > w["na"]:
+            return "%s certificate expired %d s ago" % (nm, now - w["na"])
+    if not st["root_in"]:
+        return "the issuing root is not in the configured pool"
+    if not st["name_ok"]:
+        return "the leaf is not valid for the configured ServerName"
+    return None
+
+
+def time_lacking(scn, st):
+    """the property's own predicate at the instant of this handshake"""
+    if time_required(scn, st):
+        why = time_valid(scn, st)
+        if why:
+            return why
+    if st["vpc"] == "reject" and not (scn["honest"] == "server" and st["policy"] == 0):
+        return "VerifyPeerCertificate rejects"
+    return None
+
+
+def time_term(scn, steps):
+    def win(w):
+        return "(mk_twin %d %d)" % (w["nb"] + T_OFF, w["na"] + T_OFF)
+    out = []
+    for st in steps:
+        chain = [win(st["leaf"])] + ([win(st["interw"])] if scn["inter"] else [])
+        cred = "(mk_tcred [%s] 1 %s 7)" % ("; ".join(chain), win(st["root"]))
+        if scn["honest"] == "client":
+            side = "(TClient %s (Some %d))" % (cbool(st["skip"]), 7 if st["name_ok"] else 8)
+        else:
+            side = "(TServer %s)" % POLICY[st["policy"]]
+        vpc = {"": "None", "ok": "(Some true)", "reject": "(Some false)"}[st["vpc"]]
+        pol = "(mk_tpolicy %s [%d] %s)" % (side, 1 if st["root_in"] else 2, vpc)
+        if st["hres"] not in ("ok", "local"):
+            return None
+        out.append("(mk_tstep (mk_treq %s %s %d) %s)" % (cred, pol, st["now"] + T_OFF, cbool(st["hres"] == "ok")))
+    return "[%s]" % "; ".join(out)
+
+
+def time_leg(chk, tcases, ok_model, reported, go_out):
+    """monitor + model comparison of the sequences of TestVerifC03Time; returns True if a violation was reported"""
+    found = False
+    if not tcases:
+        chk.broken("time leg TestVerifC03Time produced no observations", go_out[-2000:])
+        return False
+    n_steps, keys, samples, changed = 0, [], [], 0
+    for c in tcases:
+        scn = c["scn"]
+        prev = None
+        for i, st in enumerate(c["steps"]):
+            n_steps += 1
+            sid = "%s#%d" % (scn["id"], i)
+            v0, v1 = time_valid(scn, st), time_valid(scn, st, st["now_end"])
+            if (v0 is None) != (v1 is None):
+                chk.broken("time leg: validity changed while handshake %s was running" % sid, json.dumps(st))
+                continue
+            if (v0 is None) != st["oracle"]:
+                chk.broken("time leg: ground truth of %s disagrees with crypto/x509 on the same inputs (%s)" % (sid, v0),
+                           json.dumps(st))
+                continue
+            if st["hres"] == "hang":
+                chk.broken("time leg: honest side of %s neither succeeded nor failed" % sid, json.dumps(st))
+            why_l = time_lacking(scn, st)
+            if prev is not None and (prev is None) != (why_l is None):
+                changed += 1
+            if why_l:
+                keys.append(sid)
+                if len(samples) < 2:
+                    samples.append({"step": sid, "now": st["now"], "why": why_l, "hres": st["hres"], "alert": st["halert"]})
+            bad = None
+            if why_l and st["hres"] == "ok":
+                bad = MON + ": " + why_l
+            elif why_l and st["hreads"] > 0:
+                bad = "application data delivered although the peer lacks the required credential: " + why_l
+            elif st["hres"] != "ok" and st["hreads"] > 0:
+                bad = "application data delivered by an endpoint whose handshake did not succeed"
+            prev_ok = [j for j in range(i) if c["steps"][j]["hres"] == "ok" and not time_lacking(scn, c["steps"][j])]
+            prev = why_l
+            if not bad:
+                continue
+            found = True
+            cls = re.sub(r"[-0-9]+ s", "", why_l or "").replace("(NotBefore in )", "").strip()
+            sig = {"monitor": bad.split(":")[0], "deviation": "credential-not-valid-at-the-time-of-this-handshake",
+                   "why": cls, "after_accepted_earlier": bool(prev_ok)}
+            key = json.dumps(sig, sort_keys=True)
+            if key in reported:
+                continue
+            reported.add(key)
+            same = sorted("%s#%d" % (k["scn"]["id"], j) for k in tcases for j, s2 in enumerate(k["steps"])
+                          if time_lacking(k["scn"], s2) and s2["hres"] == "ok")
+            chk.finding(SITE_TIME, sig,
+                        "%s [%s, DTLS 1.%d, honest %s, t=%d s after the start; %s]; all such handshakes (%d): %s" % (
+                            bad, sid, scn["ver"] - 10, scn["honest"], st["now"],
+                            ("the same certificate list was accepted by the same Config/pool objects in handshake(s) %s of "
+                             "this sequence while it was valid" % prev_ok) if prev_ok else
+                            "never presented while valid before", len(same), " ".join(same[:40])),
+                        {"how": "TestVerifC03Time sequence `scn` (one synctest bubble = one process, ONE client and ONE server "
+                                "Config object and one roots pool object for all handshakes, the peer presents the same "
+                                "certificate list every time): play `steps` in order; before step k sleep until virtual time "
+                                "`now` seconds after the start of the bubble and apply `mutation`; certificate windows "
+                                "leaf/interw/root = NotBefore/NotAfter in seconds relative to the start; hres = "
+                                "HandshakeContext result class of the honest side, hreads = payloads it Read from the peer, "
+                                "oracle = crypto/x509 Verify of the same list/pool/name at that instant",
+                         "scn": scn, "steps": c["steps"][:i + 1], "failing_step": i,
+                         "rerun": "VERIF_SEED=%d bin/check C03 --tier %s" % (chk.seed, chk.tier)})
+    # model / implementation comparison: whole sequences, verdict after the prefix already played
+    if ok_model:
+        terms, idx = [], []
+        for i, c in enumerate(tcases):
+            t = time_term(c["scn"], c["steps"])
+            if t is not None:
+                terms.append(t)
+                idx.append(i)
+        bad, err = vlib.coq_mismatches("c03t", IMPORTS_T, "list tstep", "c03t_ok", terms, shard=100)
+        if bad is None:
+            chk.broken("correspondence evaluation (time leg) failed in coqc", err)
+        else:
+            for j in bad[:3]:
+                c = tcases[idx[j]]
+                viol = any(time_lacking(c["scn"], s) and s["hres"] == "ok" for s in c["steps"])
+                first = next((k for k, s in enumerate(c["steps"])
+                              if (s["hres"] == "ok") != (time_lacking(c["scn"], s) is None)), -1)
+                chk.finding(SITE_TIME, {"monitor": "model-mismatch", "id": c["scn"]["id"]},
+                            "verdicts of a sequence of handshakes differ from Hs/C03Time.v accept_after [%s]: first differing "
+                            "step %d, observed %s" % (c["scn"]["id"], first, [s["hres"] for s in c["steps"]]),
+                            {"scn": c["scn"], "steps": c["steps"], "failing_step": first, "term": terms[j],
+                             "correspondence": "Hs.C03TimeRun.c03t_ok"},
+                            no_input=not (viol or found))
+        bad2, err2 = vlib.coq_mismatches("c03tm", IMPORTS_T, "list tstep", "c03t_not_violating", terms, shard=100)
+        if bad2 is None:
+            chk.broken("monitor evaluation (time leg) failed in coqc", err2)
+        else:
+            py = {i for i, c in enumerate(tcases) if any(time_lacking(c["scn"], s) and s["hres"] == "ok" for s in c["steps"])}
+            cq = {idx[j] for j in bad2}
+            # the Coq monitor knows path validation only; a VerifyPeerCertificate rejection is the driver's
+            py_x = {i for i in py if any(time_required(tcases[i]["scn"], s) and time_valid(tcases[i]["scn"], s) and
+                                         s["hres"] == "ok" for s in tcases[i]["steps"])}
+            if py_x != cq:
+                chk.broken("property monitor in Coq (required_ok) and in the driver (time_lacking) disagree on the time leg",
+                           json.dumps(tcases[sorted(py_x ^ cq)[0]]))
+    chk.count("time-sequence", n_steps, keys, samples=samples)
+    by = {}
+    for c in tcases:
+        k = "v%d/honest=%s/%s" % (c["scn"]["ver"], c["scn"]["honest"], c["scn"]["kind"])
+        by[k] = by.get(k, 0) + len(c["steps"])
+    chk.leg_info("time-sequence", sequences=len(tcases), handshakes=n_steps, validity_changes_between_handshakes=changed,
+                 handshakes_by_kind=by)
+    return found
+
+
 # ----------------------------------------------------------------- driver
 
 def run(chk):
-    proved = chk.prove(["theories/Hs/C03Run.vo"])
+    proved = chk.prove(["theories/Hs/C03Run.vo", "theories/Hs/C03TimeRun.vo"])
     out = vlib.out_path("c03")
     out_t = vlib.out_path("c03t")
     out_r = vlib.out_path("c03r")
+    out_time = vlib.out_path("c03time")
     # scenario psk_only_13 needs "a certificate the system roots accept": the process's system roots are the lab CA
     sysroots = vlib.out_path("c03roots") + ".pem"
     creds = open(os.path.join(vlib.OVERLAY_SRC, "root", "zz_verif_lab_creds_test.go")).read()
@@ -335,11 +511,11 @@ def run(chk):
     with open(sysroots, "w") as f:
         f.write(m.group(1) if m else "")
     env = {"VERIF_SEED": chk.seed, "VERIF_TIER": chk.tier, "VERIF_OUT": out, "VERIF_OUT_TAMPER": out_t,
-           "VERIF_OUT_RESUME": out_r, "SSL_CERT_FILE": sysroots, "SSL_CERT_DIR": os.path.join(vlib.WORK, "no-such-dir")}
+           "VERIF_OUT_RESUME": out_r, "VERIF_OUT_TIME": out_time, "SSL_CERT_FILE": sysroots, "SSL_CERT_DIR": os.path.join(vlib.WORK, "no-such-dir")}
     ov, scratch, why = tamper_overlay(["c03", "c03t"])
     tamper_ran = False
     if ov is not None:
-        rc, o = go_test_overlay(ov, "^TestVerifC03(Tamper|Resume)?$", env)
+        rc, o = go_test_overlay(ov, "^TestVerifC03(Tamper|Resume|Time)?$", env)
         shutil.rmtree(scratch, ignore_errors=True)
         tamper_ran = True
         if rc != 0 and vlib.classify_go_failure(o) == "build":
@@ -347,9 +523,11 @@ def run(chk):
             tamper_ran = False
     if not tamper_ran:
         chk.broken("DTLS 1.3 rogue-flight correspondence (tamper hook) is not checking", why or "")
-        rc, o = vlib.go_test(".", "^TestVerifC03(Resume)?$", env, tags=["c03"])
+        rc, o = vlib.go_test(".", "^TestVerifC03(Resume|Time)?$", env, tags=["c03"])
     cases = vlib.read_jsonl(out) + (vlib.read_jsonl(out_t) if tamper_ran else [])
     rcases = vlib.read_jsonl(out_r)
+    tcases = vlib.read_jsonl(out_time)
+    vlib.cleanup(out_time)
     vlib.cleanup(out)
     vlib.cleanup(out_t)
     vlib.cleanup(out_r)
@@ -518,6 +696,13 @@ def run(chk):
             if py != {ridx[j] for j in bad2}:
                 chk.broken("property monitor in Coq and in the driver disagree on the two-connection leg",
                            json.dumps(rcases[sorted(py ^ {ridx[j] for j in bad2})[0]]))
+    # ---- the same credential in successive handshakes while what decides its validity changes
+    ok_time, mo_t = vlib.coq_make(["theories/Hs/C03TimeRun.vo"])
+    if not ok_time:
+        chk.broken("model Hs/C03TimeRun.v no longer compiles", mo_t)
+    if time_leg(chk, tcases, bool(ok_time), reported, o):
+        found = True
+
     chk.count("refused-resume", len(rcases), [c["id"] for c in rcases if resume_lacking(c)],
               samples=[{"id": c["id"], "s1res": c["s1res"], "stored": c["stored"], "s2res": c["s2res"],
                         "resumed": c["resumed"]} for c in rcases if resume_lacking(c)][:2])
@@ -554,7 +739,11 @@ def run(chk):
              "signature forged for the empty digest from the public key; refused-resume: two connections, {cert, PSK} x 5 "
              "policies x Finished sent / withheld in the first x EMS on / off; DTLS 1.3 client that answers the server's flight "
              "with an ACK only (all records / one record, then silent; all records, then a final flight without certificate) x "
-             "5 policies. Non-trivial = the peer lacks "
+             "5 policies; time-sequence: DTLS 1.2/1.3 x verifying side {server, client} x chain {leaf, leaf+intermediate} x "
+             "what changes between successive handshakes of one process on the same Config/pool objects {clock past "
+             "NotAfter / NotBefore of leaf, intermediate, root; pool pointer swapped; pool object emptied / root added in "
+             "place; VerifyPeerCertificate answer; ServerName; InsecureSkipVerify; ClientAuth} + random windows and clocks. "
+             "Non-trivial = the peer lacks "
              "the credential the honest side's policy requires; distinct by scenario id.",
         assumptions=["views are abstract: x509 path validation (Go crypto/x509), signature schemes and AEAD are not modelled; "
                      "a view field is the truth value of one such primitive check on the received flight",
@@ -562,6 +751,10 @@ def run(chk):
                      "the PSK is Hs/C04TranscriptSound.psk_binds (premises: PRF and pre-master-secret construction injective)",
                      "DTLS 1.3 rogue flights are produced by a test-only hook injected with go test -overlay into scratch "
                      "copies of internal/flight/flight13/flight{4,5}handler.go (/repo untouched)",
+                     "time-sequence leg: certificates are issued inside the synctest bubble relative to its virtual clock "
+                     "(starts 2000-01-01T00:00:00Z; hours pass by time.Sleep); leaf key Ed25519 from VERIF_SEED, CA keys "
+                     "ECDSA P-256 from crypto/rand (not observed); the in-place pool change overwrites the x509.CertPool "
+                     "struct through its pointer",
                      "reproducibility: every certificate and key of the rogue / victim peers is a constant (lab credentials, "
                      "zz_verif_c03_creds_test.go); hello randoms, ephemeral keys and signature nonces come from the library's "
                      "crypto/rand and are not observed",
